@@ -308,6 +308,30 @@ def step (v : VState) : VOp → VState
 
 def run (v : VState) (ops : List VOp) : VState := ops.foldl step v
 
+/-! ### requests a viewer class refuses
+
+Some viewer classes refuse a request by raising before they touch anything: `SimpleImageViewer`
+asked for a layer of a 1-d dataset (a table, shown as a scatter overlay) or of one of its subsets
+while it has no layer at all (`MatplotlibImageMixin._scatter_artist` / `_region_artist`: "Can only
+add a scatter plot overlay once an image is present").  `refuses v op` says whether the class refuses
+`op` in state `v`; nothing changes but the error flag, and the client has not handed anything over
+(the ghost is untouched). -/
+def stepR (refuses : VState → VOp → Bool) (v : VState) (op : VOp) : VState :=
+  if refuses v op then { v with err := true } else step v op
+
+def runR (refuses : VState → VOp → Bool) (v : VState) (ops : List VOp) : VState :=
+  ops.foldl (stepR refuses) v
+
+/-- the image viewer's rule (`oneD d`: dataset `d` has one dimension): the test comes after "already
+shown" (impossible without layers) and "not in the collection". -/
+def imageRefuses (oneD : Nat → Bool) (v : VState) : VOp → Bool
+  | .addData d => v.arts.isEmpty && oneD d && v.col.datasets.contains d
+  | .addSubset d g => v.arts.isEmpty && oneD d && (findSub v.col d g).isSome
+  | _ => false
+
+/-- no class-specific refusals: the scatter, histogram and profile viewers. -/
+def neverRefuses (_ : VState) (_ : VOp) : Bool := false
+
 /-! ## Spec: the property as a decidable predicate on an observed viewer
 
 `datasets`, `dsubs`: the collection (what is current); `w`: what the client asked for; `arts`:
